@@ -77,7 +77,14 @@ func panicMatchesKind(kind, msg string) bool {
 }
 
 // replayModel tries to reproduce a violation of obligation r on the real code.
-func replayModel(verif, repo, prop string, r *vc.ObResult, rp map[string]interface{}, env *vc.Env, all []*vc.ObResult) bool {
+func replayModel(verif, repo, prop string, r *vc.ObResult, rp map[string]interface{}, env *vc.Env, all []*vc.ObResult) (confirmed bool) {
+	defer func() {
+		// the replay is an extra: whatever goes wrong in it, the violation is still reported
+		if x := recover(); x != nil {
+			rp["replay"] = fmt.Sprintf("replay driver failed: %v", x)
+			confirmed = false
+		}
+	}()
 	if env == nil || r.Ob == nil || r.Kind == "attach" || r.Kind == "lemma" || r.Ob.Fn == "" {
 		rp["replay"] = "not attempted: the obligation is not about one function's execution"
 		return false
